@@ -333,7 +333,11 @@ func childMain(t *testing.T, c *Ctx) int {
 			r.Probes["_determinism_rechecks"]++
 		}
 		r.Run = int64(i)
+		r.Slice = fmt.Sprintf("%d/%d/%d", k, w, from)
 		emit("RES", r)
+		if stop := os.Getenv("VERIF_STOP_AFTER"); stop != "" && stop == strconv.Itoa(i) {
+			break
+		}
 	}
 	fmt.Fprintf(os.Stdout, "%sDONE\n", outPrefix)
 	return 0
@@ -376,6 +380,10 @@ type ReplayFile struct {
 	Original  int    `json:"original_ops"`
 	Minimised int    `json:"minimised_ops"`
 	Note      string `json:"note,omitempty"`
+	// HistorySlice: the violation only shows after the runs a child process executed before it
+	// (state carried over between runs inside the code under test): "k/w/from" and the unit.
+	HistorySlice string `json:"history_slice,omitempty"`
+	HistoryUnit  int    `json:"history_unit,omitempty"`
 }
 
 func replayMain(t *testing.T, c *Ctx, path string) int {
@@ -388,6 +396,20 @@ func replayMain(t *testing.T, c *Ctx, path string) int {
 	if err := json.Unmarshal(b, &rf); err != nil {
 		fmt.Fprintln(os.Stderr, err)
 		return 2
+	}
+	if rf.HistorySlice != "" {
+		if err := loadCtx(c); err != nil {
+			fmt.Fprintln(os.Stderr, err)
+			return 2
+		}
+		pd := props[rf.Property]
+		if pd != nil && historyReproduces(c, pd, rf.HistorySlice, rf.HistoryUnit, rf.Signature) {
+			fmt.Printf("replay: reproduced %s by re-executing child slice %s up to unit %d (the violation depends on state carried over from earlier operations)\n", rf.Signature, rf.HistorySlice, rf.HistoryUnit)
+			fmt.Printf("VIOLATION property=%s replay=%s\n", rf.Property, path)
+			return 1
+		}
+		fmt.Println("replay: no violation (property holds on this history)")
+		return 0
 	}
 	srv := newServer(c, rf.Plan.Prop)
 	defer srv.close()
@@ -418,6 +440,42 @@ func replayMain(t *testing.T, c *Ctx, path string) int {
 	}
 	fmt.Println("replay: no violation (property holds on this plan)")
 	return 0
+}
+
+// historyReproduces re-executes a child slice up to a unit and reports whether the
+// signature shows up at that unit again.
+func historyReproduces(c *Ctx, pd *PropDef, slice string, unit int, sig string) bool {
+	cmd := selfCmd(c, "child", pd.ID, "VERIF_SLICE="+slice, "VERIF_STOP_AFTER="+strconv.Itoa(unit))
+	out, err := cmd.StdoutPipe()
+	if err != nil {
+		return false
+	}
+	cmd.Stderr = &tailBuf{}
+	if err := cmd.Start(); err != nil {
+		return false
+	}
+	found := false
+	sc := bufio.NewScanner(out)
+	sc.Buffer(make([]byte, 1<<20), 1<<28)
+	for sc.Scan() {
+		line := sc.Text()
+		if !strings.HasPrefix(line, outPrefix+"RES ") {
+			continue
+		}
+		var r Result
+		if json.Unmarshal([]byte(line[len(outPrefix)+4:]), &r) != nil {
+			continue
+		}
+		if int(r.Run) == unit {
+			for _, v := range r.Violations {
+				if v.Sig == sig {
+					found = true
+				}
+			}
+		}
+	}
+	cmd.Wait()
+	return found
 }
 
 // ---------------------------------------------------------------------------
@@ -615,6 +673,7 @@ type violRec struct {
 	crash  bool
 	tail   string
 	replan *Plan
+	slice  string
 }
 
 func parentMain(c *Ctx) int {
@@ -767,6 +826,22 @@ func parentMain(c *Ctx) int {
 				if v.Sig == sig {
 					ok = true
 				}
+			}
+		}
+		if !ok && !def.NeedsRace && vr.slice != "" {
+			// Not a function of its plan alone. Either the harness is at fault, or the code under
+			// test carries state from one operation to the next (a polluted shared definition, a
+			// cache): re-execute exactly what that child process executed, up to the failing unit.
+			if historyReproduces(c, pd, vr.slice, vr.unit, sig) {
+				rf.HistorySlice, rf.HistoryUnit = vr.slice, vr.unit
+				rf.Plan = def.Plan(c, u.Run)
+				if vr.replan != nil {
+					rf.Plan = vr.replan
+				}
+				rf.Note = "does not reproduce from the plan alone in a fresh process; reproduces when the runs the same process executed before it are executed first (state is carried between operations inside the code under test). Replay re-executes that slice."
+				b, _ := json.MarshalIndent(rf, "", " ")
+				os.WriteFile(path, b, 0o644)
+				ok = true
 			}
 		}
 		if !ok && !def.NeedsRace {
@@ -993,7 +1068,7 @@ func (a *agg) merge(pd *PropDef, us []unit, r *Result) {
 	for _, v := range r.Violations {
 		vr, ok := a.viol[v.Sig]
 		if !ok {
-			vr = &violRec{v: v, unit: int(r.Run), replan: r.Replan}
+			vr = &violRec{v: v, unit: int(r.Run), replan: r.Replan, slice: r.Slice}
 			a.viol[v.Sig] = vr
 			a.violOrder = append(a.violOrder, v.Sig)
 		}
@@ -1002,6 +1077,7 @@ func (a *agg) merge(pd *PropDef, us []unit, r *Result) {
 			vr.unit = int(r.Run)
 			vr.v = v
 			vr.replan = r.Replan
+			vr.slice = r.Slice
 		}
 	}
 }
